@@ -168,3 +168,4 @@ import models_iter     # noqa
 import models_std      # noqa
 import models_fmt      # noqa
 import models_regex    # noqa
+import models_chrono   # noqa
